@@ -168,6 +168,65 @@ impl Fld {
     }
 }
 
+/// A field element whose *internal* (Montgomery, R = 2^(8 nbytes)) representation is structured: 64-bit
+/// or 32-bit limbs that are all-ones, all-zero or tiny, the rest arbitrary. `pick(n)` returns a number
+/// below n; `word()` 64 arbitrary bits. Uniform inputs meet such limbs with probability 2^-32 or less,
+/// yet sentinel values, limb-wise comparisons and carry chains key on them.
+pub fn mont_structured(f: &Fld, pick: &mut dyn FnMut(u64) -> u64, word: &mut dyn FnMut() -> u64) -> BigUint {
+    let nl = f.nbytes / 8;
+    let mut limbs: Vec<u64> = (0..nl).map(|_| word()).collect();
+    match pick(6) {
+        0 => limbs[0] = u64::MAX,
+        1 => {
+            // the low k limbs zero
+            let k = 1 + pick((nl - 1) as u64) as usize;
+            for l in limbs.iter_mut().take(k) {
+                *l = 0;
+            }
+        }
+        2 => {
+            let i = pick(nl as u64) as usize;
+            limbs[i] = if pick(2) == 0 { u64::MAX } else { 0 };
+        }
+        3 => {
+            // 32-bit halves: one all-ones or zero half-limb
+            let i = pick(nl as u64) as usize;
+            let v = if pick(2) == 0 { 0xffff_ffffu64 } else { 0 };
+            if pick(2) == 0 {
+                limbs[i] = (limbs[i] & 0xffff_ffff_0000_0000) | v;
+            } else {
+                limbs[i] = (limbs[i] & 0x0000_0000_ffff_ffff) | (v << 32);
+            }
+        }
+        4 => {
+            for l in limbs.iter_mut() {
+                *l = match pick(3) {
+                    0 => 0,
+                    1 => u64::MAX,
+                    _ => *l,
+                };
+            }
+        }
+        _ => {
+            // every limb all-ones except the top one
+            for l in limbs.iter_mut().take(nl - 1) {
+                *l = u64::MAX;
+            }
+        }
+    }
+    // keep the Montgomery value below p: shrink the top limb
+    let top_p = (&f.p >> (64 * (nl - 1))).to_u64_digits().first().copied().unwrap_or(0);
+    if top_p > 0 {
+        limbs[nl - 1] %= top_p;
+    }
+    let mut m = BigUint::zero();
+    for l in limbs.iter().rev() {
+        m = (m << 64usize) + BigUint::from(*l);
+    }
+    let r = (BigUint::one() << (8 * f.nbytes)) % &f.p;
+    f.mul(&m, &f.inv(&r))
+}
+
 pub fn fq() -> &'static Fld {
     static F: OnceLock<Fld> = OnceLock::new();
     F.get_or_init(|| Fld::new("Fq", Q_DEC))
